@@ -2,10 +2,12 @@ import argparse
 import importlib
 import json
 import os
+import subprocess
 import sys
 
 sys.path.insert(0, os.path.dirname(os.path.abspath(__file__)))
 import common  # noqa: E402
+import ambient  # noqa: E402
 
 
 def main():
@@ -14,18 +16,34 @@ def main():
     ap.add_argument('--tier', default=os.environ.get('VERIF_TIER', 'quick'),
                     choices=['quick', 'thorough'])
     ap.add_argument('--replay')
+    ap.add_argument('--ambient')        # child mode: run under one ambient configuration (harness/ambient.py)
+    ap.add_argument('--ambient-out')
     args = ap.parse_args()
     try:
         seed = int(os.environ.get('VERIF_SEED', '0'))
     except ValueError:
         seed = 0
     os.chdir(common.VERIF)
+    if args.replay and not args.ambient:
+        payload = json.load(open(args.replay))
+        amb = payload.get('ambient')
+        if amb in ambient.CONFIGS:
+            # the failing input was found under an ambient configuration: replay it in such an interpreter
+            sys.exit(subprocess.call(ambient.child_cmd(args.prop, args.tier, amb, replay=os.path.abspath(args.replay)),
+                                     env=ambient.child_env(amb, seed)))
+    if args.ambient:
+        ambient.pre_import(args.ambient)
     prop = importlib.import_module('props.' + args.prop)
+    if args.ambient:
+        ambient.post_import(args.ambient)
     if args.replay:
         payload = json.load(open(args.replay))
         ctx = common.Ctx(prop, args.tier, seed)
+        ctx.ambient = args.ambient
         ctx.driver = common.Driver(prop.DRIVER)
         sys.exit(prop.replay(ctx, payload) or 0)
+    if args.ambient:
+        sys.exit(ambient.child_main(common, prop, args.tier, seed, args.ambient, args.ambient_out))
     sys.exit(common.run_check(prop, args.tier, seed))
 
 
